@@ -75,9 +75,9 @@ c10_length!(c10_length_arr, 5, |sc| {
 c10_length!(c10_length_obj, 5, |sc| {
     let n: usize = kani::any();
     kani::assume(n <= 3);
-    sc.members[0] = (String::from("a"), Mini::Int(kani::any()));
-    sc.members[1] = (String::from("b"), Mini::Null);
-    sc.members[2] = (String::from("c"), Mini::Bool(kani::any()));
+    sc.set(0, "a", Mini::Int(kani::any()));
+    sc.set(1, "b", Mini::Null);
+    sc.set(2, "c", Mini::Bool(kani::any()));
     kani::cover!(n == 0, "empty object");
     kani::cover!(n == 3, "three members");
     (sc.obj(n), Some(n as i64))
